@@ -390,6 +390,71 @@ def run_attr_vector(vec, tid: str, prop: str, variant: int = 0) -> dict:
     return rec.to_json()
 
 
+def align_vectors(dump_path: str):
+    out, _ = vectors(dump_path)
+    out = [v for v in out if v["kind"] == "pair"]
+    return out, {"vectors": len(out)}
+
+
+def _align_operand(o, dtype="int64"):
+    """MC_Align operand: coefficients as MC_Align!CoefAt gives them (inputs only: the judgment reads the real object)."""
+    size = 1
+    for d in o["shape"]:
+        size *= d
+    coefs = [[0 if o["zero"] == r else (2 if (r + k) % 2 == 0 else -1) * r for k in range(1, size + 1)]
+             for r in range(1, len(o["rows"]) + 1)]
+    return build_poly({"shape": list(o["shape"]), "names": list(o["names"]), "rows": [list(r) for r in o["rows"]],
+                       "coefs": coefs, "dtype": dtype})
+
+
+def run_align_vector(vec, tid: str, prop: str, variant: int = 0) -> dict:
+    """MC_Align pairs on align_polynomials and, in rotation, the three partial alignment functions."""
+    import numpy
+    reset_options()
+    rec = Recorder(tid, prop)
+    a = rec.new(_align_operand(vec["a"], ("int64", "float64", "int64", "complex128")[variant % 4]))
+    b = rec.new(_align_operand(vec["b"], ("int64", "int64", "float64")[(variant // 4) % 3]))
+    ops = [a, b]
+    if variant % 5 == 0:
+        ops.append(rec.new((3, numpy.float64(0.5), [1, 2] if vec["b"]["shape"] == [2] else 2)[(variant // 5) % 3]))
+    for fn in ("align_polynomials", ("align_shape", "align_indeterminants", "align_exponents")[variant % 3]):
+        new = rec.do("align", ops, fn=fn)
+        if new and len(new) == len(ops):
+            rec.do("realign", new, keep=False, fn=fn)
+    rec.meta["source"] = "MC_Align"
+    return rec.to_json()
+
+
+def roundtrip_vectors(dump_path: str):
+    out, _ = vectors(dump_path)
+    out = [v for v in out if v["kind"] == "trip"]
+    return out, {"vectors": len(out)}
+
+
+def run_roundtrip_vector(vec, tid: str, prop: str, variant: int = 0) -> dict:
+    """MC_Roundtrip: one operand through one medium under one setting of the retain options."""
+    reset_options()
+    rec = Recorder(tid, prop)
+    dtype = ("int64", "float64", "int32", "complex128")[variant % 4]
+    if dtype == "complex128" and vec["medium"].startswith("text"):
+        dtype = "float32"               # C13 quantifies text files over int and float coefficients
+    a = rec.new(_align_operand(vec["o"], dtype))
+    rec.do("set_options", [], keep=False, kw={"retain_names": vec["rn"], "retain_coefficients": vec["rc"]}, bad=[], prop="C14")
+    m = vec["medium"]
+    if m.startswith("pickle"):
+        rec.do("copy", [a], keep=False, how="pickle", protocol=int(m[6:]))
+    elif m in ("copy", "deepcopy", "method"):
+        rec.do("copy", [a], keep=False, how=m, protocol=0)
+    else:
+        _, writer, target = m.split("_")
+        fmt = "default" if dtype in ("float64", "float32") else ("%d", "default", "%g")[(variant // 4) % 3]
+        rec.do("saveload", [a], keep=False, writer=writer, fmt=fmt, delimiter=("default", ",")[(variant // 12) % 2],
+               header="default", comments="default", target=target)
+    reset_options()
+    rec.meta["source"] = "MC_Roundtrip"
+    return rec.to_json()
+
+
 def text_vectors(dump_path: str):
     out, _ = vectors(dump_path)
     out = [v for v in out if v["kind"] == "text"]
